@@ -691,8 +691,10 @@ class Run(object):
                                 open_ctx.append(ctx)
                                 entered_in_seg += 1
                             elif o == "exit":
-                                if open_ctx and getattr(open_ctx[-1], "_c", None) == op["a"]:
-                                    ctx = open_ctx.pop()
+                                hit = [x for x in open_ctx if getattr(x, "_c", None) == op["a"]]
+                                if hit:
+                                    ctx = hit[0]        # usually the innermost one; out of order = __exit__ called by hand
+                                    open_ctx.remove(ctx)
                                     entered_in_seg = max(0, entered_in_seg - 1)
                                     ctx.__exit__(None, None, None)
                                 # else: the block was already left by a caught exception (try around the with)
